@@ -31,6 +31,9 @@ pub struct WireState {
     pub closed: bool,
     /// fail every send with BrokenPipe
     pub send_broken: bool,
+    /// send attempts that return an error (TimedOut) although their bytes reached the peer: a
+    /// write that completed followed by a flush / acknowledgement that did not
+    pub fail_after_write: BTreeSet<usize>,
     pub recv_calls: u64,
     pub recv_polls: u64,
     /// receive-side event log: b'c' = recv() called, b'p' = a message was taken off the wire
@@ -121,6 +124,13 @@ impl SendHandle for MemSender {
             }
             let idx = st.send_attempts;
             st.send_attempts += 1;
+            if st.fail_after_write.contains(&idx) {
+                st.sent.push(data.to_vec());
+                return Err(netconf::Error::Transport(std::io::Error::new(
+                    std::io::ErrorKind::TimedOut,
+                    "memwire: the write completed, the flush timed out",
+                )));
+            }
             if st.block_sends.contains(&idx) {
                 st.blocked = Some(idx);
                 if st.block_after_write.contains(&idx) {
